@@ -101,6 +101,9 @@ void load_findings(const std::string &path) {
         }
       }
     }
+    if (const char *dis = getenv("VERIF_DISABLE_FINDING")) {  // development aid: regenerate a finding's replay file
+      if (("," + std::string(dis) + ",").find("," + f.id + ",") != std::string::npos) continue;
+    }
     if (!f.prop.empty()) cfg.findings.push_back(f);
   }
 }
